@@ -98,6 +98,10 @@ def run(chk):
     chk.coverage_extra["machine_selftest_snippets"] = n_snippets
     n = 560 if chk.tier == "quick" else 30000
     chk.absorb(run_stream(__name__, "main", chk.tier, chk.seed, n), shrink=shrink_case)
+    if chk.tier != "quick":
+        from ..runner import coverage_guided
+
+        coverage_guided(chk, __name__, "main", 420, procs=8, shrink=shrink_case)
     # the same three kernel kinds from the emitted C under ASan+UBSan (clang and gcc) and from the LLVM JIT;
     # only the safety buckets belong to C05 (agreement of results is C06's business)
     from ..runner import run_tasks
